@@ -34,6 +34,11 @@ def jobs(tier):
             js.append({'name': '%s prefix-less %s, hand-written t.tmp' % (mode, f), 'harness': (H, 'h_paths'),
                        'params': {'nlines': 2, 'menu_name': 'indent', 'mode': mode, 'fixed': [f], 'pre_temp_len': 2,
                                   'pre_out_len': 2 if mode in ('Verify', 'Clean') else None}, 'split': 4})
+    # a line that only looks like a temp directive (TAB instead of the space the grammar requires) next to a hand-written t.tmp
+    for mode in ('Build', 'InMemoryBuild', 'Verify', 'Clean'):
+        js.append({'name': '%s temp look-alike with a TAB, hand-written t.tmp' % mode, 'harness': (H, 'h_paths'),
+                   'params': {'nlines': 2, 'menu_name': 'small+', 'mode': mode, 'fixed': ['temp tab', 'cont hash'], 'pre_temp_len': 2,
+                              'pre_out_len': 2 if mode in ('Verify', 'Clean') else None}})
     # whole tree: real coordinator + real preprocess, look-alike decoys (.txtpp, .txtpp.cfg, txtpp, x.txtpp.b.c), escaped directive text
     for mode, second in (('Build', None), ('InMemoryBuild', None), ('Build', 'Clean'), ('Build', 'Verify'), ('Clean', None)):
         for inputs in (['.'], ['a.txt', 'b', 'sub']):
